@@ -470,7 +470,7 @@ func describeValue(v ssa.Value) string {
 // append per iteration of a range over parameter pidx, in order, from an
 // empty base, and returned without reordering.
 func ruleMapOrder(w *World, r *Report, f *ssa.Function, pidx int) {
-	r.Rule("MAPORDER", "an element-wise conversion returns a list built by exactly one append per element of the input list, in input order, with no iteration skipping the append and no reordering call between the loop and the return")
+	r.Rule("MAPORDER", "an element-wise conversion returns a list built by exactly one append (or one indexed store) per element of the input list, in input order, with no iteration skipping it and no reordering call between the loop and the return; the list may pass through intermediate element-wise stages (a loop over the previous stage's list, or a module helper that itself maps its list parameter element by element or hands it back)")
 	name := w.FuncName(f)
 	can := w.IsCanary(f)
 	add := func(sub string, pos string, st Status, d string) {
@@ -480,20 +480,6 @@ func ruleMapOrder(w *World, r *Report, f *ssa.Function, pidx int) {
 		add("loop", w.Pos(f.Pos()), Unresolved, "parameter missing")
 		return
 	}
-	var loop *sliceRange
-	for _, sr := range findSliceRanges(f) {
-		if resolve(sr.X) == f.Params[pidx] {
-			if loop != nil {
-				add("loop", w.Pos(f.Pos()), Undecided, "more than one loop over the input list")
-				return
-			}
-			loop = sr
-		}
-	}
-	if loop == nil {
-		add("loop", w.Pos(f.Pos()), Undecided, "no range loop over the input list "+f.Params[pidx].Name())
-		return
-	}
 	n := 0
 	for _, ret := range returnsOf(f) {
 		if errResultIndex(f) >= 0 && classifyReturn(f, ret) == retError {
@@ -501,13 +487,87 @@ func ruleMapOrder(w *World, r *Report, f *ssa.Function, pidx int) {
 		}
 		n++
 		sub := fmt.Sprintf("success return#%d", n)
-		// alternative form: a list pre-sized to len(input) and filled by index in the loop
-		if ms, ok := resolve(ret.Results[0]).(*ssa.MakeSlice); ok {
-			okLen := false
-			if lc, isL := resolve(ms.Len).(*ssa.Call); isL && builtinName(lc) == "len" && resolve(lc.Call.Args[0]) == ssa.Value(f.Params[pidx]) {
-				okLen = true
+		src, st, msg, stages := mapChain(w, f, ret.Results[0], 0)
+		switch {
+		case st == Violated:
+			add(sub, w.Pos(ret.Pos()), Violated, msg)
+		case st == Discharged && src == ssa.Value(f.Params[pidx]):
+			add(sub, w.Pos(ret.Pos()), Discharged, fmt.Sprintf("one output per element of %s, in order (%d element-wise stage(s))", f.Params[pidx].Name(), stages))
+		case st == Discharged:
+			add(sub, w.Pos(ret.Pos()), Undecided, "the returned list is an element-wise image of "+describeValue(src)+", which could not be traced to the input list "+f.Params[pidx].Name())
+		default:
+			add(sub, w.Pos(ret.Pos()), Undecided, msg)
+		}
+	}
+	if n == 0 {
+		add("returns", w.Pos(f.Pos()), Undecided, "no success return")
+	}
+}
+
+// mapChain traces a list value back through element-wise stages to the list
+// it is an in-order, one-to-one image of.  Violated is returned only on
+// positive evidence (an iteration that skips its output, two outputs per
+// element, a second append site); an unrecognised construction is Undecided.
+func mapChain(w *World, f *ssa.Function, v ssa.Value, depth int) (ssa.Value, Status, string, int) {
+	v = resolve(v)
+	if depth > 6 {
+		return v, Undecided, "too many stages", 0
+	}
+	if _, ok := v.(*ssa.Parameter); ok {
+		return v, Discharged, "", 0
+	}
+	// a module helper that maps one of its list parameters (or hands it back)
+	var call *ssa.Call
+	switch x := v.(type) {
+	case *ssa.Extract:
+		if x.Index == 0 {
+			call, _ = x.Tuple.(*ssa.Call)
+		}
+	case *ssa.Call:
+		if builtinName(x) == "" {
+			call = x
+		}
+	}
+	if call != nil {
+		g := calleeOf(call)
+		if g == nil || !w.InModule(g) || g.Blocks == nil {
+			return v, Undecided, "the list comes from " + describeValue(v) + ", which is not analysed", 0
+		}
+		pi := -1
+		total := 0
+		for _, ret := range returnsOf(g) {
+			if errResultIndex(g) >= 0 && classifyReturn(g, ret) == retError {
+				continue
+			}
+			if len(ret.Results) == 0 {
+				return v, Undecided, "helper returns nothing", 0
+			}
+			src, st, msg, k := mapChain(w, g, ret.Results[0], depth+1)
+			if st != Discharged {
+				return v, st, "in " + w.FuncName(g) + ": " + msg, 0
+			}
+			i := paramIndex(g, src)
+			if i < 0 || (pi >= 0 && pi != i) {
+				return v, Undecided, "helper " + w.FuncName(g) + " does not map one list parameter", 0
+			}
+			pi = i
+			total = k
+		}
+		if pi < 0 || pi >= len(call.Call.Args) {
+			return v, Undecided, "helper " + w.FuncName(g) + " has no success return", 0
+		}
+		src, st, msg, k := mapChain(w, f, call.Call.Args[pi], depth+1)
+		return src, st, msg, k + total
+	}
+	// pre-sized list filled by index in a loop over the source
+	if ms, ok := v.(*ssa.MakeSlice); ok {
+		for _, loop := range findSliceRanges(f) {
+			lc, isL := resolve(ms.Len).(*ssa.Call)
+			if !isL || builtinName(lc) != "len" || resolve(lc.Call.Args[0]) != resolve(loop.X) {
+				continue
 			}
 			stores := 0
+			okIdx := true
 			var stBlk *ssa.BasicBlock
 			for _, ref := range *ms.Referrers() {
 				ia, isIA := ref.(*ssa.IndexAddr)
@@ -517,76 +577,74 @@ func ruleMapOrder(w *World, r *Report, f *ssa.Function, pidx int) {
 				for _, r2 := range *ia.Referrers() {
 					if st, isSt := r2.(*ssa.Store); isSt && st.Addr == ia {
 						if ia.Index != loop.Idx || !loop.blocks()[st.Block()] {
-							okLen = false
+							okIdx = false
 						}
 						stores++
 						stBlk = st.Block()
 					}
 				}
 			}
-			switch {
-			case !okLen || stores != 1:
-				add(sub, w.Pos(ret.Pos()), Violated, fmt.Sprintf("the pre-sized result is not filled by exactly one indexed store per iteration at the loop index (stores: %d)", stores))
-			case reachableFrom(loop.Body, map[*ssa.BasicBlock]bool{stBlk: true, loop.Done: true})[loop.Header]:
-				add(sub, w.Pos(ret.Pos()), Violated, "some iteration returns to the loop header without storing its output (an input element is skipped)")
-			default:
-				add(sub, w.Pos(ret.Pos()), Discharged, "result[i] is stored in every iteration of the range over "+f.Params[pidx].Name())
+			if stores == 0 {
+				continue
 			}
-			continue
-		}
-		ai := appendChain(ret.Results[0])
-		okBase := true
-		for _, b := range ai.Bases {
-			if !isEmptySliceBase(b) {
-				okBase = false
+			if !okIdx || stores != 1 {
+				return v, Violated, fmt.Sprintf("the pre-sized result is not filled by exactly one indexed store per iteration at the loop index (stores: %d)", stores), 0
 			}
-		}
-		if !okBase {
-			add(sub, w.Pos(ret.Pos()), Violated, "returned list is not built from an empty list by appends only ("+describeValue(ret.Results[0])+")")
-			continue
-		}
-		if len(ai.Appends) != 1 {
-			add(sub, w.Pos(ret.Pos()), Violated, fmt.Sprintf("returned list is built by %d append sites, exactly one is required (one output per input)", len(ai.Appends)))
-			continue
-		}
-		ap := ai.Appends[0]
-		elems, spread := appendedElems(ap)
-		if spread != nil || len(elems) != 1 {
-			add(sub, w.Pos(ap.Pos()), Violated, "the append does not add exactly one element")
-			continue
-		}
-		blocks := loop.blocks()
-		if !blocks[ap.Block()] {
-			add(sub, w.Pos(ap.Pos()), Violated, "the append is outside the loop over the input list")
-			continue
-		}
-		// inner loops: the append must not be inside a nested loop
-		nested := false
-		for _, sr := range findSliceRanges(f) {
-			if sr != loop && blocks[sr.Header] && sr.blocks()[ap.Block()] {
-				nested = true
+			if reachableFrom(loop.Body, map[*ssa.BasicBlock]bool{stBlk: true, loop.Done: true})[loop.Header] {
+				return v, Violated, "some iteration returns to the loop header without storing its output (an input element is skipped)", 0
 			}
+			src, st, msg, k := mapChain(w, f, loop.X, depth+1)
+			return src, st, msg, k + 1
 		}
-		for _, mr := range findMapRanges(f) {
-			if blocks[mr.Header] && mr.blocks()[ap.Block()] {
-				nested = true
-			}
-		}
-		if nested {
-			add(sub, w.Pos(ap.Pos()), Violated, "the append is inside a nested loop (more than one output per input)")
-			continue
-		}
-		// every path from the body entry back to the header passes through the append
-		reach := reachableFrom(loop.Body, map[*ssa.BasicBlock]bool{ap.Block(): true, loop.Done: true})
-		if reach[loop.Header] {
-			add(sub, w.Pos(ap.Pos()), Violated, "some iteration returns to the loop header without appending (an input element is skipped)")
-			continue
-		}
-		add(sub, w.Pos(ap.Pos()), Discharged, "one append per iteration of the range over "+f.Params[pidx].Name())
 	}
-	if n == 0 {
-		add("returns", w.Pos(f.Pos()), Undecided, "no success return")
+	// a list modified in place element by element and handed on: the list itself
+	ai := appendChain(v)
+	if len(ai.Appends) == 0 {
+		return v, Undecided, "the list " + describeValue(v) + " is not built by appends", 0
 	}
+	for _, b := range ai.Bases {
+		if !isEmptySliceBase(b) {
+			return v, Violated, "returned list is not built from an empty list by appends only (" + describeValue(v) + ")", 0
+		}
+	}
+	if len(ai.Appends) != 1 {
+		return v, Violated, fmt.Sprintf("the list is built by %d append sites, exactly one is required (one output per input)", len(ai.Appends)), 0
+	}
+	ap := ai.Appends[0]
+	elems, spread := appendedElems(ap)
+	if spread != nil || len(elems) != 1 {
+		return v, Violated, "the append does not add exactly one element", 0
+	}
+	var loop *sliceRange
+	for _, sr := range findSliceRanges(f) {
+		if sr.blocks()[ap.Block()] && (loop == nil || loop.blocks()[sr.Header]) {
+			if loop == nil || sr != loop {
+				// keep the outermost loop that contains the append
+				if loop == nil || sr.blocks()[loop.Header] {
+					loop = sr
+				}
+			}
+		}
+	}
+	if loop == nil {
+		return v, Undecided, "the append is not inside a range loop over a list", 0
+	}
+	blocks := loop.blocks()
+	for _, sr := range findSliceRanges(f) {
+		if sr != loop && blocks[sr.Header] && sr.blocks()[ap.Block()] {
+			return v, Violated, "the append is inside a nested loop (more than one output per input)", 0
+		}
+	}
+	for _, mr := range findMapRanges(f) {
+		if blocks[mr.Header] && mr.blocks()[ap.Block()] {
+			return v, Violated, "the append is inside a nested loop (more than one output per input)", 0
+		}
+	}
+	if reachableFrom(loop.Body, map[*ssa.BasicBlock]bool{ap.Block(): true, loop.Done: true})[loop.Header] {
+		return v, Violated, "some iteration returns to the loop header without appending (an input element is skipped)", 0
+	}
+	src, st, msg, k := mapChain(w, f, loop.X, depth+1)
+	return src, st, msg, k + 1
 }
 
 // ---------------------------------------------------------------- WRAPPER
